@@ -100,7 +100,9 @@ namespace
     struct FNested { static constexpr auto name = "c07_g_nested"; static Port<TS<Int>> compose(Wiring &w, Port<TS<Int>> ts) { return wire<Acc>(w, wire<Triple>(w, ts)); } };
 
     // ---- programs ------------------------------------------------------------------------------------------------------
-    constexpr int N_PROGRAMS = 8;
+    constexpr int N_PROGRAMS = 10;
+    char penc(int p) { return p < 10 ? static_cast<char>('0' + p) : static_cast<char>('A' + p - 10); }
+    int pdec(char c) { return c >= 'A' ? 10 + (c - 'A') : c - '0'; }
     const char *INT_IN[2] = {"1,2,,4,5", "7,,7,1"};
     const char *DICT_IN[2] = {"s1=5,s2=6;s1=7;e1;s1=8,s3=1;", "s2=1;;s2=2,s4=4;e2,e4;s2=9"};
 
@@ -142,6 +144,10 @@ namespace
                 wire<LogInt>(w, a, Str{"rp"});
                 break;
             }
+            // two programs that differ ONLY in a parameter of an interned type (duration window, same range, different warm-up):
+            // whichever was built first in the process must not decide the other's behaviour
+            case 8: { auto s2 = wire<stdlib::sum_>(w, wire<stdlib::to_window>(w, wire<IntSrc>(w, Str{h == 0 ? "1,2,3,4,5,6,7,8" : "2,,4,4,,1,1,1"}), MIN_TD * 10, MIN_TD * 5)).template as<TS<Int>>(); wire<LogInt>(w, s2, Str{"w5"}); break; }
+            case 9: { auto s2 = wire<stdlib::sum_>(w, wire<stdlib::to_window>(w, wire<IntSrc>(w, Str{h == 0 ? "1,2,3,4,5,6,7,8" : "2,,4,4,,1,1,1"}), MIN_TD * 10, MIN_TD * 2)).template as<TS<Int>>(); wire<LogInt>(w, s2, Str{"w2"}); break; }
             default: throw std::logic_error("no such program");
         }
     }
@@ -243,7 +249,7 @@ namespace
     std::optional<std::string> do_op(HistState &hs, const std::string &op, verif::Ctx *ctx)
     {
         const char k = op[0];
-        const int p = k == 'C' ? N_PROGRAMS : op[1] - '0';
+        const int p = k == 'C' ? N_PROGRAMS : pdec(op[1]);
         const int h = k == 'C' ? op[1] - '0' : op[2] - '0';
         auto check = [&](const std::string &got, const char *what) -> std::optional<std::string> {
             if (ctx) { ++ctx->evaluations; ctx->state(std::to_string(p) + ":" + std::to_string(h) + ":" + got); }
@@ -283,7 +289,7 @@ namespace
         std::vector<std::string> a;
         for (int p = 0; p < N_PROGRAMS; ++p) for (int h = 0; h < 2; ++h)
         {
-            const std::string ph = std::to_string(p) + std::to_string(h);
+            const std::string ph = std::string(1, penc(p)) + std::to_string(h);
             a.push_back("R" + ph); a.push_back("B" + ph);
             if (h == 0) a.push_back("W" + ph);
             if (thorough || h == 0) a.push_back("X" + ph);
@@ -342,7 +348,7 @@ namespace
         const std::string head = fields[0];
         const bool clock = head.rfind("clock:", 0) == 0;
         c.jump = clock ? 7'000'000'000LL : 0;
-        for (auto &ph : split(head.substr(head.find(':') + 1), '+')) c.progs.emplace_back(ph[0] - '0', ph[1] - '0');
+        for (auto &ph : split(head.substr(head.find(':') + 1), '+')) c.progs.emplace_back(pdec(ph[0]), ph[1] - '0');
         for (std::size_t i = 1; i < fields.size(); ++i)
         {
             auto eq = fields[i].find('=');
@@ -432,7 +438,7 @@ void verif_enumerate(verif::Ctx &ctx)
     {
         for (int p = 0; p <= N_PROGRAMS; ++p) for (int h = 0; h < 2; ++h)
         {
-            const std::string desc = "clock:" + std::to_string(p) + std::to_string(h) + ";bound=" + std::to_string(th ? 5 : 3);
+            const std::string desc = std::string{"clock:"} + penc(p) + std::to_string(h) + ";bound=" + std::to_string(th ? 5 : 3);
             SchedCase c = parse_sched(desc);
             vs::explore_config(ctx, desc, c.bound, th ? 30000000 : 3000000, [&](const std::vector<int> &pf, std::vector<vs::ChoicePoint> &t) { return execute_sched(c.progs, c.jump, pf, t); });
         }
@@ -441,8 +447,8 @@ void verif_enumerate(verif::Ctx &ctx)
     // threads: every ordered pair of programs (the two inputs differ so that a leak is visible)
     for (int p = 0; p <= N_PROGRAMS; ++p) for (int q = th ? 0 : p; q <= N_PROGRAMS; ++q)
     {
-        const bool deep = th || (p == 1 && q == 8) || (p == 2 && q == 3) || (p == 0 && q == 7);
-        const std::string desc = "threads:" + std::to_string(p) + "0+" + std::to_string(q) + "1;bound=" + std::to_string(deep ? 2 : 1);
+        const bool deep = th || (p == 1 && q == N_PROGRAMS) || (p == 8 && q == 9) || (p == 2 && q == 3) || (p == 0 && q == 7);
+        const std::string desc = std::string{"threads:"} + penc(p) + "0+" + penc(q) + "1;bound=" + std::to_string(deep ? 2 : 1);
         SchedCase c = parse_sched(desc);
         vs::explore_config(ctx, desc, c.bound, th ? 30000000 : 3000000, [&](const std::vector<int> &pf, std::vector<vs::ChoicePoint> &t) { return execute_sched(c.progs, c.jump, pf, t); });
     }
